@@ -14,6 +14,8 @@ kinds
   oc:src                  Source.as_dict / Source.as_obj                                    vs (oc-encsrc ..) / (oc-decsrc ..)
   oc:pos                  Position.as_dict / <Class>.as_obj                                 vs (oc-encpos ..) / (oc-decpos ..)
   oc:registry             Source.all_as_dict / clear_registry / load_serialized_sources     vs (oc-all reg) / (oc-load reg J…)
+                          incl. registries with DISTINCT sources sharing (source_type, source_uri) registered before
+                          sources that are then referenced by index (twin_registry_scenario)
   oc:registry-illordered  the same when a SourceSet was registered BEFORE one of its members (model vs real only)
   oc:mk                   MultiOrigin(origins=[…]) (+ registry afterwards)                  vs (oc-mk reg origin…)
   oc:nested-missing       a required key missing in a NESTED dict: mashumaro wraps MissingField into InvalidFieldValue
@@ -757,8 +759,12 @@ def registry_specs(rng: random.Random) -> list:
     (construction builds the members first, so every set is registered AFTER its members)"""
     specs: list = []
     for _ in range(rng.randint(1, 5)):
-        if rng.random() < 0.35:
+        k = rng.random()
+        if k < 0.3:
             specs.append(rand_set_spec(rng, specs))
+        elif k < 0.45:
+            # distinct sources sharing (source_type, source_uri), registered before whatever follows
+            specs += twin_specs(rng, rng.choice(TWIN_KINDS))
         else:
             specs.append(rand_leaf_spec(rng))
     return specs
@@ -814,6 +820,111 @@ def registry_scenario(rng: random.Random) -> list[Case]:
         out.append(Case("oc:registry", line, dumps(real), True,
                         f"load_serialized_sources into the non-empty registry {before!r}; dicts of {originals!r}",
                         sig=SIG + "registry"))
+    return out
+
+
+TWIN_KINDS = ["file/textfile", "textfile/file", "zipped/file", "file/zipped", "plain/text", "plain/memory", "plain/file",
+              "plain/set", "file/textfile/zipped"]
+
+
+def twin_specs(rng: random.Random, kind: str) -> list:
+    """DISTINCT sources (different classes, hence `!=`) that read as the same (source_type, source_uri)"""
+    if kind in ("file/textfile", "textfile/file"):
+        p = rng.choice(PATHS)
+        pair = [("file", False, p), ("file", True, p)]
+        return pair if kind == "file/textfile" else pair[::-1]
+    if kind in ("zipped/file", "file/zipped", "file/textfile/zipped"):
+        rel, z = rng.choice(["z.zip", "dir/a.zip", "sp ace/é.zip"]), rng.choice(["in/side.txt", "x.py", "deep/er/f"])
+        joined = rel + "::" + z                                  # FileSource(Path("z.zip::x.py")) is "File"@"z.zip::x.py" too
+        if kind == "file/textfile/zipped":
+            return [("file", False, joined), ("file", True, joined), ("zipped", rel, z)]
+        pair = [("zipped", rel, z), ("file", rng.random() < 0.5, joined)]
+        return pair if kind == "zipped/file" else pair[::-1]
+    if kind == "plain/text":
+        u, t = rng.choice(URIS), rng.choice(STYPES)
+        return [("plain", False, u, t, None), ("plain", True, u, t, rng.choice([None, "abc"]))]
+    if kind == "plain/memory":
+        u = rng.choice(MEM_URIS)
+        return [("plain", rng.random() < 0.5, u, "<memory>", None), ("memory", u, rng.choice([None, "abc"]))]
+    if kind == "plain/file":
+        p = rng.choice(PATHS)
+        return [("plain", False, p, "File", None), ("file", rng.random() < 0.5, p)]
+    if kind == "plain/set":
+        return [("plain", False, "SourceSet(a/b.txt||x.py)", "SourceSet", None),
+                ("set", (("file", False, "a/b.txt"), ("file", True, "x.py")))]
+    raise ValueError(kind)
+
+
+def twin_registry_scenario(rng: random.Random, kind: str) -> list[Case]:
+    """the index round trip when DISTINCT sources share (source_type, source_uri): they are registered BEFORE other sources
+    which are then referenced by index; `Source.all_as_dict()`, a fresh registry, `load_serialized_sources`, and every
+    index — those of the twins and those after them — must still name the same source (a loader that identifies sources
+    by type and uri instead of `==` drops a twin and shifts every later index)"""
+    out: list[Case] = []
+    with controlled_registry():
+        specs = []
+        if rng.random() < 0.5:
+            specs.append(rand_leaf_spec(rng))
+        twins = twin_specs(rng, kind)
+        specs += twins
+        later = [rand_leaf_spec(rng) for _ in range(rng.randint(1, 2))]
+        if rng.random() < 0.5:
+            later.append(("set", (twins[-1], later[0])))
+        specs += later
+        built = [build_source(sp) for sp in specs]
+        originals = registry()
+        note = f" [twins {kind}]"
+        line = dumps([A("oc-all"), enc_reg(originals)])
+        real, dicts = outcome(Source.all_as_dict, lambda r: [enc_j(x) for x in r])
+        out.append(Case("oc:registry", line, dumps(real), True, f"all_as_dict of {originals!r}{note}",
+                        sig=SIG + "registry-twins"))
+        if dicts is None:
+            return out
+        # origins that refer by index to a twin, to a source registered after the twins, and to both
+        last = built[-1]
+        referenced = [O.XMLFileOrigin(last, O.XMLPath("/r")),
+                      O.CodeOrigin(built[specs.index(twins[-1])], O.get_code_range(0, 1, 0, 3, 1, 3)),
+                      O.MultiOrigin([O.GeneratedCodeOrigin(built[specs.index(twins[0])]),
+                                     O.XMLFileOrigin(built[specs.index(later[0])], O.XMLPath("/r/x[2]"))])]
+        originals = registry()                    # the MultiOrigin registered its derived SourceSet
+        dicts = Source.all_as_dict()
+        encoded = []
+        for o in referenced:
+            c, d = enc_case(o, True, "")
+            c.desc += note
+            out.append(c)
+            encoded.append((o, d))
+        # the fresh process: empty registry, load the table
+        Source.clear_registry()
+        line = dumps([A("oc-load"), enc_reg([])] + [enc_j(x) for x in dicts])
+        real, _ = outcome(lambda: Source.load_serialized_sources(dicts) or True, lambda r: [enc_reg()])
+        loaded = registry()
+        fail = None
+        if len(loaded) != len(originals):
+            fail = f"{len(originals)} sources serialized, {len(loaded)} registered after loading"
+        else:
+            for i, src in enumerate(originals):
+                if type(loaded[i]) is not type(src) or not (loaded[i] == src):
+                    fail = f"index {i}: loaded {loaded[i]!r}, original {src!r}"
+                    break
+                try:
+                    r = Source.as_obj({"idx": i})
+                except Exception as e:  # noqa
+                    fail = f"as_obj(idx {i}) raised {type(e).__name__}"
+                    break
+                if type(r) is not type(src) or not (r == src):
+                    fail = f"as_obj(idx {i}) = {r!r}, original {src!r}"
+                    break
+        out.append(Case("oc:registry", line, dumps(real), True,
+                        f"clear_registry; load_serialized_sources(all_as_dict()){note} originals={originals!r}",
+                        oracle_fail=fail, sig=SIG + "registry-twins"))
+        # index forms written before, read after the reload: model agreement + the round-trip oracle (== original)
+        for o, d in encoded:
+            if d is None:
+                continue
+            c = dec_case(d, o, True, f"idx form written before, read after reloading all_as_dict(){note}")
+            c.sig = SIG + "registry-twins"
+            out.append(c)
     return out
 
 
@@ -965,6 +1076,10 @@ def origin_cases(rng: random.Random, tier: str, known_divergent: bool = True):
     # registry
     for _ in range(count(5)):
         yield from registry_scenario(rng)
+    for k in TWIN_KINDS:
+        yield from twin_registry_scenario(rng, k)
+    for _ in range(0 if tier == "quick" else 30):
+        yield from twin_registry_scenario(rng, rng.choice(TWIN_KINDS))
     for _ in range(count(1)):
         yield from illordered_scenario(rng)
     # MultiOrigin construction
